@@ -114,12 +114,19 @@ func (f *frame) execInstr(in ssa.Instruction) {
 		return
 	case *ssa.Jump:
 		f.edgeCtl = f.ctl
+		f.edgeBr = f.br
 		f.pushEdge(n.Block().Succs[0], f.cur)
 	case *ssa.If:
 		c := f.val(n.Cond).S
+		br := f.br
+		if br == "" {
+			br = "true"
+		}
 		f.edgeCtl = vc.Def("ec", "Bool", And(f.ctl, c))
+		f.edgeBr = vc.Def("eb", "Bool", And(br, c))
 		f.pushEdge(n.Block().Succs[0], vc.Def("e", "Bool", And(f.cur, c)))
 		f.edgeCtl = vc.Def("ec", "Bool", And(f.ctl, Not(c)))
+		f.edgeBr = vc.Def("eb", "Bool", And(br, Not(c)))
 		f.pushEdge(n.Block().Succs[1], vc.Def("e", "Bool", And(f.cur, Not(c))))
 	case *ssa.Return:
 		var rv Val
@@ -144,7 +151,7 @@ func (f *frame) execInstr(in ssa.Instruction) {
 			f.cur = save
 			return
 		}
-		f.rets = append(f.rets, retInfo{cond: f.cur, st: f.st, val: rv})
+		f.rets = append(f.rets, retInfo{cond: f.cur, st: f.st, val: rv, br: f.br})
 	case *ssa.Panic:
 		f.safety("panic", "explicit panic reachable", "false", f.pos(n))
 		f.dead = true
